@@ -1180,6 +1180,12 @@ def drive_c16(ctx):
     for _ in range(12 if ctx.quick else 250):
         heapdrv.run_session(ctx.rec, rng, ['C16'], rng.choice([8, 14, 25]))
     replay_ladder_histories(ctx, ['C16'])
+    # S2C: every 4-call history of the object-world model, executed on real objects
+    import json as _json
+    if ctx.gen.get('api_hist'):
+        for i, line in enumerate(open(ctx.gen['api_hist'])):
+            if mine(ctx, i):
+                heapdrv.run_script(ctx.rec, rng, ['C16'], _json.loads(line)['hist'])
     # failed decodes INSIDE field tables (valid envelope, broken content) interleaved with valid table-carrying
     # frames, all in this one interpreter: whatever a failure leaves behind must not reach a later call
     import wiregen
